@@ -115,9 +115,11 @@ func ckeIsWellFormed(expect, shape string) bool {
 // message is not sent (RFC 5246 7.4.3, RFC 4492 5.4, RFC 4279 2-4, RFC 5489 2). Signed
 // parameters carry a SignatureAndHashAlgorithm only in TLS 1.2.
 func skeWellFormed(class string, ver uint16) string {
-	sig := "+v16:32:s"
+	// (fill 'a': the signature starts 00 01 .., so a reader that takes its first bytes for
+	// something else sees small numbers)
+	sig := "+v16:32"
 	if ver == 0x0303 {
-		sig = "+hex:0401+v16:32:s"
+		sig = "+hex:0401+v16:32"
 	}
 	const ecParams = "hex:030017+v8:65"
 	const dhParams = "v16:32+v16:1:b+v16:32"
@@ -140,6 +142,29 @@ func skeWellFormed(class string, ver uint16) string {
 	return "-"
 }
 
+// skeFamily: what the ServerKeyExchange of a class consists of (for signatures).
+func skeFamily(class string) string {
+	switch class {
+	case "ECDHE_ECDSA", "ECDHE_RSA":
+		return "ec-signed"
+	case "ECDH_anon":
+		return "ec-anon"
+	case "DHE_DSS", "DHE_RSA", "DHE_DSS_EXPORT", "DHE_RSA_EXPORT":
+		return "dh-signed"
+	case "DH_anon", "DH_anon_EXPORT":
+		return "dh-anon"
+	case "PSK", "RSA_PSK":
+		return "psk-hint"
+	case "DHE_PSK":
+		return "psk-hint+dh"
+	case "ECDHE_PSK":
+		return "psk-hint+ec"
+	case "RSA", "DH_DSS", "DH_RSA", "ECDH_ECDSA", "ECDH_RSA":
+		return "not-sent"
+	}
+	return "opaque"
+}
+
 // structuredByPostPass: classes for which fq replaced the ClientKeyExchange placeholder
 // by a structure when this section was written. Only used for the non-vacuity
 // assertion (the post pass ran); more classes may be structured (they are counted).
@@ -153,6 +178,9 @@ type suiteInfo struct {
 	name  string
 	class string
 	known bool
+	// fq's table has a key agreement for the suite (for some suites, e.g. the CCM ones, the
+	// generated table says UNKNOWN although the name carries one; fq leaves those alone)
+	fqClassified bool
 }
 
 // suiteTable: every 16 bit suite id of fq's table (sorted) plus two ids fq does not know.
@@ -168,12 +196,13 @@ func suiteTable() (all []suiteInfo, tooWide int) {
 			continue
 		}
 		n := ciphersuites.Suits[id].Name
-		all = append(all, suiteInfo{uint16(id), n, kxClass(n), true})
+		all = append(all, suiteByID(uint16(id)))
+		_ = n
 	}
 	added := 0
 	for _, id := range []int{0x0a0a, 0xfffe, 0xeeee, 0x7a7a, 0x1234} {
 		if _, ok := ciphersuites.Suits[id]; !ok && added < 2 {
-			all = append(all, suiteInfo{uint16(id), fmt.Sprintf("unknown_%04x", id), "-", false})
+			all = append(all, suiteByID(uint16(id)))
 			added++
 		}
 	}
@@ -182,9 +211,9 @@ func suiteTable() (all []suiteInfo, tooWide int) {
 
 func suiteByID(id uint16) suiteInfo {
 	if s, ok := ciphersuites.Suits[int(id)]; ok {
-		return suiteInfo{id, s.Name, kxClass(s.Name), true}
+		return suiteInfo{id, s.Name, kxClass(s.Name), true, s.KeyAgreement != ciphersuites.UNKNOWN_KeyAgreement}
 	}
-	return suiteInfo{id, fmt.Sprintf("unknown_%04x", id), "-", false}
+	return suiteInfo{id, fmt.Sprintf("unknown_%04x", id), "-", false, false}
 }
 
 var tlsVersions = []uint16{0x0303, 0x0301, 0x0302, 0x0300}
@@ -466,11 +495,12 @@ func labelHoles(c tlsConv, s suiteInfo, expect, where, dir string, rv *decode.Va
 			}
 			sig += ":kx=" + expect + ":body=" + wf
 		case "server_key_exchange.body":
+			// (a well-formed body depends on the version: it goes into the signature then)
 			wf := "malformed"
 			if w := skeWellFormed(s.class, c.Ver); w != "-" && w == c.SKE {
-				wf = "wellformed"
+				wf = "wellformed:" + verName(c.Ver)
 			}
-			sig += ":kx=" + s.class + ":" + verName(c.Ver) + ":body=" + wf
+			sig += ":kx=" + skeFamily(s.class) + ":body=" + wf
 		}
 		if !seen[sig] {
 			seen[sig] = true
@@ -525,7 +555,7 @@ func vacuity(c tlsConv, o tlsObs) []finding {
 		v("encrypted-records", fmt.Sprintf("encrypted records client %d server %d, sent %d each", o.encrypted[0], o.encrypted[1], nEnc))
 	}
 	// the post pass ran
-	if len(fs) == 0 && structuredByPostPass[s.class] && c.Ver != 0x0300 && ckeIsWellFormed(ckeExpect(s.class), c.CKE) && !o.pcapErr {
+	if len(fs) == 0 && structuredByPostPass[s.class] && s.fqClassified && c.Ver != 0x0300 && ckeIsWellFormed(ckeExpect(s.class), c.CKE) && !o.pcapErr {
 		if hasName(o.ckeChildren, "data") || len(o.ckeChildren) != 3 {
 			v("post-pass-did-not-run:"+s.class, fmt.Sprintf("client_key_exchange of %s (%s) has the children %v: the placeholder was not replaced by a structure", s.name, verName(c.Ver), o.ckeChildren))
 		}
